@@ -1302,6 +1302,14 @@ reg(_stat.S_ISBLK, _fmt_is(0o060000))
 
 
 def _next(eng, it, *default):
+    if hasattr(it, "__next__") and not isinstance(it, (list, tuple)):
+        # a real iterator object (made by iter() below, or a generator): it keeps its position
+        try:
+            return it.__next__()
+        except StopIteration:
+            if default:
+                return default[0]
+            raise ModelRaise("StopIteration", cls=StopIteration)
     xs = eng.iterate(it)
     if xs:
         return xs[0]
@@ -1311,4 +1319,4 @@ def _next(eng, it, *default):
 
 
 reg(next, _next)
-reg(iter, lambda eng, x: eng.iterate(x))
+reg(iter, lambda eng, x: x if hasattr(x, "__next__") else iter(eng.iterate(x)))
